@@ -2038,6 +2038,7 @@ for ( l=0; l<(int)length; l++ ) {
 				     from_format, to_os_size, data_type,
                                      delta_from_bytes, delta_to_bytes,
 				     from_data, temp_data, error_return );
+         if ( *error_return != NO_ERROR ) return ;
          ADFI_big_little_endian_swap( from_format, to_os_size,
 				      to_format, to_os_size, data_type,
                                       delta_to_bytes, delta_to_bytes,
@@ -2050,6 +2051,7 @@ for ( l=0; l<(int)length; l++ ) {
 			  	        from_format, to_os_size, data_type,
                                         delta_from_bytes, delta_to_bytes,
 				        from_data, temp_data, error_return );
+         if ( *error_return != NO_ERROR ) return ;
          ADFI_big_little_endian_swap( from_format, to_os_size,
 				      to_format, to_os_size, data_type,
                                       delta_to_bytes, delta_to_bytes,
